@@ -358,7 +358,10 @@ def stuffBitsAux (wordSize : Nat) : Nat → List Bool → List Bool
       addBits (word : Int) wordSize ++ stuffBitsAux wordSize fuel (bits.drop wordSize)
 
 def stuffBits (bits : List Bool) (wordSize : Nat) : List Bool :=
-  stuffBitsAux wordSize bits.length bits
+  -- `for i := 0; i < n || out.Len() == 0; …` (fix: commit): an empty stream still yields one word, built from
+  -- padding ones only, i.e. `AddBits(mask, wordSize)`
+  if bits.isEmpty then addBits (((1 <<< wordSize) - 2 : Nat) : Int) wordSize
+  else stuffBitsAux wordSize bits.length bits
 
 /-- `generateModeMessage`; the arguments of the two `generateCheckWords` calls are the generated ones -/
 def generateModeMessage (compact : Bool) (layers : Nat) (messageSizeInWords : Nat) : Res (List Bool) :=
